@@ -437,3 +437,8 @@ fn replay(_opts: &Opts, d: &Value, acc: &mut Acc) {
         }
     }
 }
+
+/// libFuzzer entry: one generated expression and its forms
+pub fn fuzz_case(genome: &[u8], acc: &mut Acc) -> Vec<Failure> {
+    check_generated(genome, acc)
+}
